@@ -318,9 +318,9 @@ func (r *recorder) recordIncomingRTCP(latestStats internalStats, incoming *incom
 				latestStats.OutboundRTPStreamStats.NACKCount++
 			}
 		case *rtcp.FullIntraRequest:
-			if pkt.MediaSSRC == r.ssrc {
-				latestStats.OutboundRTPStreamStats.FIRCount++
-			}
+			// the stream a FIR asks a key frame from is named by its FCI entries (checked above via
+			// DestinationSSRC); its media source field is zero per RFC 5104 section 4.3.1.2
+			latestStats.OutboundRTPStreamStats.FIRCount++
 		case *rtcp.PictureLossIndication:
 			if pkt.MediaSSRC == r.ssrc {
 				latestStats.OutboundRTPStreamStats.PLICount++
